@@ -96,6 +96,8 @@ theorem pushNone_interp : ∀ (b b' : B) (dt : DataType) (n : Bool) (md : Metada
     rfl
   | .dictionary _ idx vals _, b', dt, n, md, hs, h => by
     simp only [pushNone, ctx_ok] at h
+    split at h
+    · simp [fail] at h
     obtain ⟨idx', h1, _⟩ := (bind_ok _ _ _).1 h
     simp only [Shape] at hs
     obtain ⟨⟨kdt, vdt, rfl⟩, hint, hnl, _⟩ := hs
